@@ -145,6 +145,9 @@ func RunRandom(seed int64, g *GenesisSpec, naccts int, p Profile, root string, e
 			if op == nil {
 				continue
 			}
+			if gen.Rng.Float64() < p.PCheck {
+				op.Kind = "check" // mempool only: this transaction is never delivered
+			}
 			ev2 := do(*op)
 			if ev2 != nil && ev2["post"] != nil {
 				ev = ev2
